@@ -207,7 +207,8 @@ impl LayerContents {
             Err(NamingError::ReservedName)
         } else {
             let name = Name::new(new)?;
-            if overwrite {
+            // Renaming a layer to its own name must not remove it.
+            if overwrite && old != new {
                 self.remove(&name);
             }
 
